@@ -48,13 +48,26 @@ def oracle_O(ops, mvz, stats=None):
         return None if x is None else (0 if mvz else x)
 
     res = []
+    env = {}                            # getEnvVar.h: variable name -> string id (0 = the empty string)
     for tok in ops:
         f = tok.split(":")
         c = f[0]
+        if c in ("es", "eu"):
+            if c == "es": env[int(f[1])] = int(f[2])
+            else: env.pop(int(f[1]), None)
+            res.append(("ok", dump()))
+            continue
         i = int(f[1])
         out = "ok"
         wi = st[i]
-        if c in ("cd", "cv", "mk"):
+        if c == "gv":
+            k, sid = int(f[2]), env.get(int(f[3]))
+            if wi is not None: out = "ill"
+            else:
+                # engaged iff the variable is set (also when set to ""); value = atoi / (float)atof / the string itself
+                val = None if sid is None else (4 * sid if k == 0 else (1 if sid == 1 else 4 * sid) if k == 1 else sid)
+                st[i] = [k == 1, val]
+        elif c in ("cd", "cv", "mk"):
             if wi is not None: out = "ill"
             else: st[i] = [f[2] == "1", None if c == "cd" else int(f[3])]
         elif c in ("cc", "cm", "xc", "xm"):
@@ -214,7 +227,11 @@ def check_A(ops, line):
 
 
 # ------------------------------------------------------------------ generators
-def gen_O(r, maxlen):
+ENV_SIDS = {0: [0, 0, 1, 2, 3, 5, 9], 1: [0, 0, 1, 1, 2, 3, 6], 2: [0, 0, 4, 8, 12, 20]}
+
+
+def gen_O(r, maxlen, env=None):
+    """env: None, or the getEnvVar kind (0 int, 1 float, 2 string) whose operations are mixed into the history"""
     alive = [None] * NS            # None or isU
     eng = [False] * NS             # generator's own guess, only used to bias towards interesting sources
     ops = []
@@ -223,9 +240,16 @@ def gen_O(r, maxlen):
         i = r.randrange(NS)
         v = r.choice([0] + list(range(1, 100)) * 3) if r.random() < 0.1 else r.randint(1, 99)
         others = [j for j in range(NS) if alive[j] is not None]
+        if env is not None and r.random() < 0.18:
+            n = r.randrange(3)
+            ops.append("es:%d:%d" % (n, r.choice(ENV_SIDS[env])) if r.random() < 0.7 else "eu:%d" % n)
+            continue
         if alive[i] is None:
             c = r.random()
-            if c < 0.25 or not others:
+            if env is not None and r.random() < 0.45:
+                ops.append("gv:%d:%d:%d" % (i, env, r.choice([0, 1, 2, 0, 1, 7])))     # name 7 is never set
+                alive[i] = env == 1; eng[i] = r.random() < 0.5
+            elif c < 0.25 or not others:
                 u = 1 if r.random() < 0.35 else 0
                 k = r.choice(["cd", "cd", "cv", "cv", "mk"])
                 ops.append("%s:%d:%d" % (k, i, u) if k == "cd" else "%s:%d:%d:%d" % (k, i, u, v))
@@ -278,6 +302,13 @@ ALPHA_O2 = ["cc:3:0", "cm:3:1", "cm:3:0", "xc:3:2", "xm:3:2", "ac:0:1", "am:0:1"
 ALPHA_KS = ["cv:0:0:4", "cv:1:0:6", "cd:1:0", "cv:2:1:5", "ac:0:1", "am:0:1", "ac:1:0", "xac:0:2", "xam:0:2", "cc:3:0", "cm:3:1",
             "xc:3:2", "em:0:7", "av:0:5:0", "av:0:6:1", "rs:1", "val:0", "val:1", "eq:0:1", "le:0:2", "ne:1:2", "vo:1:7",
             "mk:3:0:4", "d:0"]
+
+
+def alpha_env(kind):
+    a, b = {0: (3, 5), 1: (1, 2), 2: (4, 8)}[kind]
+    ty = 1 if kind == 1 else 0
+    return ["es:0:0", "es:0:%d" % a, "es:1:%d" % b, "eu:0", "gv:0:%d:0" % kind, "gv:1:%d:1" % kind, "gv:2:%d:7" % kind, "gv:1:%d:0" % kind,
+            "hv:0", "val:0", "val:1", "val:2", "cv:3:%d:8" % ty, "ac:0:3", "am:1:0", "cc:3:0", "eq:0:1", "d:0", "rs:0", "vo:0:40", "ac:0:1"]
 
 
 def exhaustive_O(n1, n2):
@@ -409,7 +440,8 @@ def judge(ctx, what, cases, exe, hargs, full, mvz, mism, crashes, label, seen_bu
 
 
 # ------------------------------------------------------------------ source-derived facts (Tie: AST -> gen/Facts.v)
-FACT_THMS = {"facts_optional_members": "table", "facts_optional_comparisons": "cmp", "facts_optional_accessors": "misc",
+FACT_THMS = {"facts_getenv_specialisations": "env", "facts_getenv_generic_empty": "env_generic", "facts_traits_operator_equals": "traits",
+             "facts_optional_members": "table", "facts_optional_comparisons": "cmp", "facts_optional_accessors": "misc",
              "facts_optional_layout": "lay", "facts_any_members": "any", "facts_any_holder_unique": "holder"}
 
 
@@ -435,9 +467,11 @@ def coq_diag(ctx, facts):
     goals = [("M:" + m, "gen_table %s = model_table %s" % (m, m), "model_table %s" % m) for m in factgen.METHS]
     goals += [("C:" + o, "gen_cmp %s = model_cmp %s" % (o, o), "model_cmp %s" % o) for o in ("CEq", "CNe", "CLt", "CLe", "CGt", "CGe")]
     goals += [("A:" + m, "gen_any %s = model_any %s" % (m, m), "model_any %s" % m) for m in factgen.AMETHS]
+    goals += [("E:" + k, "gen_env %s = model_env %s" % (k, k), "model_env %s" % k) for k in ("KInt", "KFloat", "KStr")]
+    goals += [("traits", "gen_traits = model_traits", "model_traits"), ("env_generic", "gen_env_generic_empty = true", "true")]
     goals += [("misc", "gen_misc = model_misc", "model_misc"), ("lay", "gen_lay = model_lay", "model_lay"),
               ("holder", "gen_holder = model_holder", "model_holder")]
-    lines = ["From Coq Require Import List NArith.", "From C09 Require Import Model Micro.", "From C09.gen Require Import Facts.",
+    lines = ["From Coq Require Import List NArith.", "From C09 Require Import Model Env Micro.", "From C09.gen Require Import Facts.",
              "Import ListNotations."]
     for tag, g, e in goals:
         lines.append('Goal True. first [ assert (%s) by reflexivity; idtac "@@OK %s" | idtac "@@DIFF %s" ]. Abort.' % (g, tag, tag))
@@ -465,6 +499,8 @@ def source_entry(facts, tag):
         return facts["cmp"][tag[2:]]
     if tag.startswith("A:"):
         return "[%s]" % "; ".join(facts["any"][tag[2:]])
+    if tag.startswith("E:"):
+        return "[%s]" % "; ".join(facts["env"][tag[2:]])
     return json.dumps(facts.get(tag))
 
 
@@ -637,13 +673,39 @@ def run(ctx):
             judge(ctx, "Optional history", extra, ex, args, False, False, mism, crashes, label)
     ctx.sample({"case": ks_extra[0], "note": "payload codes are 4*key+shadow; ks compares keys only"})
 
-    ctx.cov["case_mix"] = {"corpus": len(corpus), "optional_random": len(o_rand), "optional_exhaustive": len(o_exh),
+    # ---- getEnvVar.h: Optionals produced from the process environment, then used in the ongoing history
+    re_ = ctx.rng("env")
+    env_total = 0
+    for fam, kind, mz in (("int", 0, "mvz0"), ("dbl", 1, "mvz0"), ("str", 2, "mvz1")):
+        ecases = [recode(gen_O(re_, 30, env=kind), lambda v: 4 * v) for _ in range(ctx.pick(1500, 12000))] + \
+            ["O " + " ".join(t) for n in range(1, 4) for t in itertools.product(alpha_env(kind), repeat=n)]
+        env_total += len(ecases)
+        impls = [("getEnvVar<%s>" % {0: "int", 1: "float", 2: "string"}[kind], exe, [fam]),
+                 ("getEnvVar<%s>@odd-offset" % {0: "int", 1: "float", 2: "string"}[kind], exe_odd, [fam])]
+        mism, crashes, mlines = vlib.differential(ctx, ecases, model, impls, model_args=["plain", mz, "fixed"])
+        ctx.count(len(ecases) * len(impls))
+        ctx.cov["mismatches_env_%s" % fam] = len(mism)
+        for c in ecases:
+            t = [x.split(":")[0] for x in c.split()[1:]]
+            hist["O:es"] = hist.get("O:es", 0) + t.count("es")
+            hist["O:eu"] = hist.get("O:eu", 0) + t.count("eu")
+            hist["O:gv"] = hist.get("O:gv", 0) + t.count("gv")
+            # non-trivial: a variable was set, read through getEnvVar and the result observed
+            if "es" in t and "gv" in t and any(x in t for x in ("val", "hv", "vo") + CMPS):
+                ctx.nontriv(c)
+        for label, ex, args in impls:
+            judge(ctx, "getEnvVar history", ecases, ex, args, False, mz == "mvz1", mism, crashes, label)
+        if kind == 0:
+            ctx.sample({"case": ecases[0], "model_and_impl": mlines[0][:300] if mlines else None})
+    ctx.cov["case_mix"] = dict(ctx.cov.get("case_mix", {}), getenv_histories=env_total)
+
+    ctx.cov["case_mix"] = dict(ctx.cov.get("case_mix", {})); ctx.cov["case_mix"].update({"corpus": len(corpus), "optional_random": len(o_rand), "optional_exhaustive": len(o_exh),
                            "optional_shadowed_ks": len(ks_extra), "optional_signed_zero_dbl": len(dbl_extra),
                            "any_random": len(a_rand), "any_exhaustive": len(a_exh), "payload_families": [f[0] for f in FAMS],
-                           "placements": ["64-byte aligned slot", "struct{char; Optional<T>} (odd offset when alignment is 1)"]}
+                           "placements": ["64-byte aligned slot", "struct{char; Optional<T>} (odd offset when alignment is 1)"]})
     ctx.rule = ("Optional: random histories (length<=30, 4 wrapper slots, both payload types T and convertible U, sources biased to be empty "
                 "half of the time) + all histories of length<=%d over a %d-op alphabet + all continuations of length<=%d (%d-op alphabet) of "
-                "a 3-wrapper preamble; each on 7 payload families x 2 placements under ASan+UBSan (payload codes are 4*key+shadow; the {key,shadow} struct compared on key and double/float with +0.0/-0.0 additionally get histories with shadowed codes, full stored state printed after every step). Any: random histories (length<=30, 8 "
+                "a 3-wrapper preamble; getEnvVar<int|float|string>: random histories mixing setenv/unsetenv/getEnvVar (the empty string, 30+ character strings, decimal spellings with blanks/sign/trailing junk, -0.0, a name never set) with the Optional operations + all histories of length<=3 over a 21-op alphabet per kind; each on 7 payload families x 2 placements under ASan+UBSan (payload codes are 4*key+shadow; the {key,shadow} struct compared on key and double/float with +0.0/-0.0 additionally get histories with shadowed codes, full stored state printed after every step). Any: random histories (length<=30, 8 "
                 "payload types incl. one without operator==, an instrumented one, double with +0.0/-0.0/NaN and a {key,shadow} struct "
                 "compared on key only; the full stored state is printed bit-exactly after every step) + all histories of length<=%d over %d ops. "
                 "non-trivial = the history contains a well-formed wrapper-to-wrapper copy/move/assign and a later observation"
@@ -652,6 +714,9 @@ def run(ctx):
                     "ASan+UBSan) + generators and python value-type oracle in props/C09/check.py",
                     "modelled, not verified: std::string/std::vector move leaving the source empty (mvz), the payload's own copy/move/assign "
                     "(atomic events KRead/KMove/KAssign), std::unique_ptr ownership in Any (one holder per living Any), typeid name comparison"]
+    ctx.trusted.append("libc atoi / atof / getenv are NOT modelled: what they make of a string is an oracle parameter of the getEnvVar theorems "
+                       "(Section variables atoi atof in coq/C09/Env.v); the executable model uses the concrete oracle atoi_code/atof_code and the "
+                       "harness renders each string id so that the real atoi/atof give that code; the std::string case is exact")
     ctx.assumptions += ["payload values are N codes; a payload's own operations do not throw (exception paths of Optional are not modelled)",
                         "Any's holder identity/ownership is by construction of the model (unique_ptr); leaks/double frees of holders are "
                         "observed by the instrumented payload in the harness, not proved",
